@@ -301,16 +301,16 @@ pub fn run(op: &str, a: &[&str]) -> Vec<String> {
         }
         "ed_sign" => {
             let (kp, _pk) = ed25519::keypair(&a32(&expand(a[0])));
-            vec![hex(&ed25519::signature(&expand(a[1]), &kp))]
+            vec![hex(&ed25519::signature(&skew(&expand(a[1])), &kp))]
         }
-        "ed_sign_ext" => vec![hex(&ed25519::signature_extended(&expand(a[1]), &a64(&expand(a[0]))))],
+        "ed_sign_ext" => vec![hex(&ed25519::signature_extended(&skew(&expand(a[1])), &a64(&expand(a[0]))))],
         "ed_ext_pub" => vec![hex(&ed25519::extended_to_public(&a64(&expand(a[0]))))],
         "ed_exchange" => vec![hex(&ed25519::exchange(&a32(&expand(a[0])), &a32(&expand(a[1]))))],
         // ed_verify <pk> <sig> <msg> -> verdict and whether the crate's own decoder accepts pk
         "ed_verify" => {
             let pk = a32(&expand(a[0]));
             let sig = a64(&expand(a[1]));
-            let m = expand(a[2]);
+            let m = skew(&expand(a[2]));
             vec![tf(ed25519::verify(&m, &pk, &sig)), tf(Ge::from_bytes(&pk).is_some())]
         }
         "fe" => fe_prog(a),
